@@ -5,6 +5,7 @@ import (
 	"go/ast"
 	"go/constant"
 	"go/token"
+	"go/types"
 	"sort"
 	"strings"
 
@@ -404,9 +405,20 @@ func ruleFilterPredicates(w *core.World, r *core.Report) {
 		// filtered flag: the true edge of either key rule leads back to the loop head carrying filtered = true
 		okFlag, seenFlag := true, false
 		var fph *ssa.Phi
-		for _, in := range core.Instrs(f) {
-			if ph, ok := in.(*ssa.Phi); ok && ph.Comment == "filtered" && fph == nil {
-				fph = ph
+		// the "some key was rejected" flag: the only boolean carried round the loop that consults the key rules
+		for _, s := range core.SitesNamed(f, false, "(*pkg/filter.RedisKeyFilter).FilterKey") {
+			if head := core.LoopHeadOf(s.Instr.Block()); head != nil {
+				var bools []*ssa.Phi
+				for _, in := range head.Instrs {
+					if ph, ok := in.(*ssa.Phi); ok {
+						if bt, isB := ph.Type().Underlying().(*types.Basic); isB && bt.Kind() == types.Bool {
+							bools = append(bools, ph)
+						}
+					}
+				}
+				if len(bools) == 1 {
+					fph = bools[0]
+				}
 			}
 		}
 		for _, b := range f.Blocks {
